@@ -131,9 +131,9 @@ func writeEvidence(prop string, spec *propSpec, tier string, seed int64, total *
 		},
 		"assumptions": append(append([]string{}, commonAssume...), spec.Assumptions...),
 	}
-	os.MkdirAll(filepath.Join(verifDir, "evidence"), 0o755)
+	os.MkdirAll(filepath.Join(outDir, "evidence"), 0o755)
 	b, _ := json.MarshalIndent(ev, "", " ")
-	if err := os.WriteFile(filepath.Join(verifDir, "evidence", prop+".json"), b, 0o644); err != nil {
+	if err := os.WriteFile(filepath.Join(outDir, "evidence", prop+".json"), b, 0o644); err != nil {
 		fmt.Fprintf(os.Stderr, "vcheck: cannot write evidence: %v\n", err)
 	}
 }
